@@ -416,8 +416,70 @@ def _stub_h():
     k("h_stub::stub_scope_slice_len_overflow_up", ["C07", "C17"], ["traits::BumpAllocatorTypedScope::try_alloc_uninit_slice"], "B",
       "a slice length whose byte size overflows (every n > isize::MAX/4 for u32) is reported as an error", bound="contract stub; loop-free over all such n", timeout=600)
 
+    for m in _re.finditer(r"pub\(crate\) fn (stub_vec_zst_\w+)\(\)", txt):
+        k("h_stub::" + m.group(1), ["C06", "C08"], ["bump_vec::BumpVec / mut_bump_vec::MutBumpVec / mut_bump_vec_rev::MutBumpVecRev with a zero-sized element type: {try_push,try_extend_from_within_clone,try_extend_from_slice_clone,try_resize,truncate,pop,remove,try_insert,clear,drop}"], "B",
+          "zero-sized element type with Drop + Clone that counts constructions and drops: capacity usize::MAX, no memory is ever requested, after every step #created - #dropped equals the number of values the vector (and the caller) still own - a value materialised from nothing inside the collection is never dropped; at the end every value was dropped exactly once",
+          bound="contract stub (every request would be refused); one concrete sequence of 12 operations", timeout=900)
+    _mops = {"0": "try_push", "1": "try_push_str", "2": "try_insert_str", "3": "try_reserve", "4": "try_extend_from_within"}
+    _quick_mut_str = {"stub_mut_str_insert_str_refused_dn", "stub_mut_str_extend_within_no_region_dn", "stub_mut_str_push_refused_up", "stub_mut_str_reserve_refused_dn"}
+    for m in _re.finditer(r"^    (stub_mut_str_\w+): (true|false), (\d+), \[(\d), (\d)\], \[(\d), (\d)\], (\d), (\d);", txt, _re.M):
+        name, up, used, a, b, xa, xb, mode, op = m.groups()
+        k("h_stub::" + name, ["C09", "C07", "C17"], ["mut_bump_string::MutBumpString::{try_from_str_in,%s,into_boxed_str}" % _mops[op], "mut_bump_vec::MutBumpVec<u8>::{generic_grow_amortized,into_slice_ptr}"], "B",
+          "MutBumpString over the exclusive allocator contract, text pattern [%s,%s], %s with pattern [%s,%s], %s; then into_boxed_str: same contents as std::string::String, valid UTF-8, committed block live and accounted; refused growth changes nothing"
+          % (a, b, _mops[op], xa, xb, ["served (moves to the newer region)", "every request refused", "a new region refused"][int(mode)]),
+          tier=("quick" if name in _quick_mut_str else "thorough"), bound="contract stub; two characters with a concrete UTF-8 length pattern, scalar values symbolic", timeout=1800, inst="UP=%s used=%s" % (up, used))
+    for m in _re.finditer(r"^    (stub_iter_mut_\w+): (true|false), (\d+), (true|false), (true|false);", txt, _re.M):
+        name, up, used, rev, refused = m.groups()
+        k("h_stub::" + name, ["C17", "C15", "C01", "C07"], ["traits::MutBumpAllocatorTypedScope::%s (provided method)" % ("try_alloc_iter_mut_rev" if rev == "true" else "try_alloc_iter_mut"), "mut_bump_vec%s::{try_push,into_boxed_slice}" % ("_rev::MutBumpVecRev" if rev == "true" else "::MutBumpVec")], "B",
+          "the slice holds the items in iteration order (reversed for _rev), is a live aligned block, exactly the slice stays allocated; a refused request is an error and leaves nothing allocated",
+          bound="contract stub; 3 items (symbolic u16)", timeout=600, inst="UP=%s used=%s refused=%s" % (up, used, refused))
+    for m in _re.finditer(r"^    (stub_twins_(\w+?)(?:_short|_long)?_(up|dn)): (true|false), (\d+), ", txt, _re.M):
+        name, meth, _d, up, used = m.groups()
+        k("h_stub::" + name, ["C17"], ["traits::BumpAllocatorTypedScope / MutBumpAllocatorTypedScope: alloc_%s and try_alloc_%s (provided methods)" % (meth, meth)], "B",
+          "the panicking method and its try_ twin, started from the same state: same block (offset), same number of bytes handed out, same contents" + (" - for an ExactSizeIterator whose len() is wrong (shorter / longer than promised)" if ("_short_" in name or "_long_" in name) else ""),
+          bound="contract stub; <= 4 items (symbolic u16)", timeout=600, inst="UP=%s used=%s" % (up, used))
+
 
 _stub_h()
+
+
+# ----------------------------------------------------------------------------- fixed-capacity arithmetic over the full usize domain (h_coll3.rs)
+for _n, _fns, _t in [
+    ("fixed_reserve_full_domain", ["fixed_bump_vec::FixedBumpVec::{try_reserve,generic_reserve}"], "try_reserve(additional) for EVERY additional: Ok exactly when additional <= capacity - len (no overflow of len + additional); length, capacity, contents unchanged"),
+    ("fixed_resize_full_domain", ["fixed_bump_vec::FixedBumpVec::{try_resize,generic_resize}"], "try_resize(new_len, x) for EVERY new_len: Ok exactly when new_len <= capacity; contents as Vec::resize; a failed resize keeps the length"),
+    ("fixed_zst_reserve_full_domain", ["fixed_bump_vec::FixedBumpVec::<()>::{try_reserve,generic_reserve,capacity}"], "zero-sized elements (capacity usize::MAX), EVERY len and additional: Ok exactly when additional <= usize::MAX - len"),
+    ("fixed_string_reserve_full_domain", ["fixed_bump_string::FixedBumpString::{try_reserve,generic_reserve,try_push_str}"], "try_reserve(additional) for EVERY additional: Ok exactly when it fits; contents unchanged"),
+]:
+    k("h_coll3::" + _n, ["C07", "C08"], _fns, "P-inst", _t, bound=None, timeout=600, inst="element type u8 / (), capacity 5 / 8, len symbolic, request over the full usize domain (loop-free)")
+
+# ----------------------------------------------------------------------------- the owning type, guard on an unallocated arena, more over-granting allocators (h_owner.rs)
+_OWN = {"0": ("try_new_in", "exactly one chunk, size multiple of 16, stats coherent; drop releases every chunk once"), "1": ("try_with_size_in(100)", "one chunk of at least the requested size less the assumed malloc overhead; drop releases it once"),
+        "3": ("try_new_in / try_with_size_in / try_with_capacity_in with a refusing base allocator", "an error, nothing leaked, nothing released"), "4": ("reset after a second chunk was appended", "only the newest chunk is kept (one release), nothing allocated; drop releases the rest"),
+        "5": ("into_raw / from_raw", "into_raw releases nothing, from_raw gives the same arena, drop releases every chunk once")}
+
+
+def _owner_h():
+    import os as _os
+    here = _os.path.dirname(_os.path.dirname(_os.path.abspath(__file__)))
+    pth = _os.path.join(here, "kani", "incrate", "h_owner.rs")
+    if not _os.path.exists(pth):
+        return
+    txt = open(pth).read()
+    for m in _re.finditer(r"^    (owner_\w+): (\w+), (\d);", txt, _re.M):
+        name, st, which = m.groups()
+        what, post = _OWN[which]
+        k("h_owner::" + name, ["C05", "C07", "C10", "C12", "C03"] if which == "4" else ["C05", "C07", "C10", "C12"], ["bump::Bump::{%s, drop, reset, into_raw, from_raw}" % what.split(" ")[0], "raw_bump::RawBump::{with_size,manually_drop,reset}"], "B",
+          "Bump (the owning type): %s: %s" % (what, post), bound="settings %s, first chunk of the minimum size" % st, timeout=900, inst=st)
+    for n_, thr in (("claim_guard_unallocated_up1", False), ("claim_guard_unallocated_dn4", False), ("claim_guard_unallocated_used_up1", True)):
+        k("h_owner::" + n_, ["C14", "C05"], ["bump_claim_guard::BumpClaimGuard::{new,drop}", "raw_bump::RawBump::{claim,reclaim}"], "B",
+          "BumpClaimGuard on an UNALLOCATED arena (%s): while it lives the original is claimed and fails; after the guard is dropped the original is unclaimed, continues where the guard stopped, is allocated iff the guard allocated, and serves requests again; every chunk released" % ("a chunk is created through the guard" if thr else "nothing allocated through the guard"),
+          bound="loop-free", timeout=600)
+    for n_, inst in (("overgrant_dn1_align32_by48", "LogAlloc<Align32>, MIN_ALIGN=1 down, over-grant 48"), ("overgrant_dn8_align64_by80", "LogAlloc<Align64>, MIN_ALIGN=8 down, over-grant 80"), ("overgrant_up4_align32_by16", "LogAlloc<Align32>, MIN_ALIGN=4 up, over-grant 16")):
+        _props, _fns, _text, _bound = _OB["ob_overgrant"]
+        k("h_owner::" + n_, _props, _fns, "B", _text + " - over-grant a multiple of 16 but not of the over-aligned header alignment", bound="K=1", timeout=900, inst=inst)
+
+
+_owner_h()
 
 
 def for_property(pid, tier):
